@@ -108,6 +108,19 @@ pub fn drive(args: &HashMap<String, String>) {
             writeln!(f, "{}", json!({"ev": "Enc", "value": v.to_json(), "impl": r["impl_bytes"], "cons": r["cons_bytes"],
                 "back": if is_ok(&r["back"]) { r["back"].clone() } else { json!(["err"]) }})).unwrap();
             rep.traces += 1;
+        } else {
+            // too large for the trace: abstracted to what the property needs (a single atom also carries its length and the
+            // first bytes of both encodings, which the specification predicts with SizeBlob)
+            let same = r["impl_bytes"] == r["cons_bytes"];
+            let back_ok = r["back"][0] == "ok" && V::from_json(&r["back"][1]).map(|b| b == *v).unwrap_or(false);
+            let pre = |x: &Value| Value::Array(x.as_array().map(|a| a.iter().take(8).cloned().collect()).unwrap_or_default());
+            if let V::A(bytes) = v {
+                writeln!(f, "{}", json!({"ev": "Big", "len": bytes.len(), "paired": false, "impl_prefix": pre(&r["impl_bytes"]), "cons_prefix": pre(&r["cons_bytes"]),
+                    "same": same, "back_ok": back_ok})).unwrap();
+            } else {
+                writeln!(f, "{}", json!({"ev": "EncAbs", "same": same, "back_ok": back_ok})).unwrap();
+            }
+            rep.traces += 1;
         }
         rep.nontrivial(&v.to_json().to_string());
         if r["impl_bytes"] != r["cons_bytes"] {
